@@ -24,7 +24,7 @@ def one_case(ctx, out, req, exact, outcome, nout=1, nout_arg=None, extra_outputs
     osy = ctx.osyris
     with loadrun.Written(out, nout, extra_outputs) as w:
         impl = loadrun.run_impl(osy, w, req, nout=nout_arg)
-        model, spec = lean.run_driver([loadrun.driver_case(out, req, "model", files=True), loadrun.driver_case(out, req, "spec")])
+        model, spec = lean.run_driver([loadrun.driver_case(out, req, "model", files=True, osy=osy), loadrun.driver_case(out, req, "spec", osy=osy)])
         outcome.evaluations += 1
         outcome.compared += 1
         desc = describe(out)
@@ -50,6 +50,7 @@ def one_case(ctx, out, req, exact, outcome, nout=1, nout_arg=None, extra_outputs
         else:
             d = (loadrun.compare_group(out, impl["groups"], "mesh", model, exact)
                  or loadrun.compare_group(out, impl["groups"], "part", model, exact)
+                 or loadrun.compare_sink(out, impl["groups"], model, exact)
                  or loadrun.compare_trace(impl.get("trace"), model))
             if not d and int(impl["meta"]["ncells"]) != model["ncells"]:
                 d = f"meta ncells {impl['meta']['ncells']} vs model {model['ncells']}"
@@ -64,6 +65,7 @@ def one_case(ctx, out, req, exact, outcome, nout=1, nout_arg=None, extra_outputs
         else:
             v = (loadrun.compare_spec(out, impl["groups"], "mesh", spec, exact)
                  or loadrun.compare_spec(out, impl["groups"], "part", spec, exact)
+                 or loadrun.compare_sink(out, impl["groups"], spec, exact)
                  or loadrun.check_derived(osy, impl, out))
             if not v and impl["time"] is not None:
                 want = float(out["time"] * out["unit_t"])
